@@ -3,6 +3,7 @@ package main
 import (
 	"encoding/json"
 	"fmt"
+	"runtime/debug"
 	"strings"
 	"time"
 
@@ -242,11 +243,19 @@ func (w *World) Do(a Action) StepOut {
 		// clean stop, then a new instance on the same file system with restore enabled per cfg
 		w.in.Shutdown()
 		verifrt.ResetTracking()
-		in, err := newInstance(w.cfg)
+		in, err, pan := safeNewInstance(w.cfg)
+		if pan != "" {
+			w.in.dead, w.in.deadWhy = true, "panic"
+			return StepOut{Empty: true, Panic: pan}
+		}
 		if err != nil {
+			w.in.dead, w.in.deadWhy = true, "start-up error"
 			return StepOut{Empty: true, Err: err.Error()}
 		}
 		w.in = in
+		if in.dead {
+			return StepOut{Empty: true, Panic: strings.Join(in.panics, "\n"), Hang: in.deadWhy == "hang"}
+		}
 		return StepOut{Empty: true}
 	}
 	panic("unknown action kind " + a.K)
@@ -349,6 +358,24 @@ func runSeq(spec *SeqSpec, root []Action, firstFilter func(i int) bool, w *Worke
 			out := wld.Do(a)
 			st.transitions++
 			if out.Hang {
+				// the only place real time enters a verdict: confirm twice more on fresh instances before believing it
+				confirmed := true
+				for try := 0; try < 2 && confirmed; try++ {
+					w2, _, err := buildWorld(spec.Cfg, n.path)
+					if err != nil || w2.Dead() {
+						break
+					}
+					if o2 := w2.Do(a); !o2.Hang {
+						confirmed = false
+					}
+				}
+				if !confirmed {
+					res.Notes = append(res.Notes, "watchdog tripped once but not on re-execution (load): "+sigOfAction(a))
+					res.HangCase = caseID // still restart the worker (a goroutine may be spinning), but report nothing
+					res.Stats["unconfirmed_hangs"]++
+					flushSeq(res, &st, hashes)
+					return
+				}
 				addFinding(Finding{Prop: spec.Prop, Sig: "hang|" + sigOfAction(a), Kind: "hang",
 					Detail: "command did not return within the watchdog: " + caseID, Replay: replayOf(spec.Cfg, n.path, a), Cost: len(n.path)})
 				res.HangCase = caseID
@@ -437,4 +464,15 @@ func sigOfAction(a Action) string {
 		return strings.ToUpper(a.A[0])
 	}
 	return a.K
+}
+
+// safeNewInstance starts an instance, capturing a panic of the start-up path (restore runs inside NewSugarDB).
+func safeNewInstance(cfg InstCfg) (in *Instance, err error, pan string) {
+	defer func() {
+		if p := recover(); p != nil {
+			pan = fmt.Sprintf("%v\n%s", p, debug.Stack())
+		}
+	}()
+	in, err = newInstance(cfg)
+	return
 }
